@@ -384,6 +384,141 @@ def sym_process_target(vc):
             expect_no_raise_or_same(vc, fk, paths)
 
 
+def sym_join_process_datapackage(vc):
+    """join_aux.process_datapackage (the descriptor phase; the stream phase is new_resource_iterator, same cases in the same order):
+       every other resource keeps its position and is the same object; the source descriptor stays iff source_delete is off; in
+       deduplication mode (no target key) a NEW target descriptor {name: target, path: data/<target>.csv} with the aggregated fields
+       follows at the source's position; otherwise the target descriptor is extended in place at its own position; a missing source
+       or target, or a target listed before its source, is an AssertionError and the package is left as it was"""
+    import z3
+    from pyvc.api import check, cover, PyDict, PyList
+    from pyvc.symex import PyExc
+    fk = vc.under_contract(P + 'join.py', ['join_aux', 'process_datapackage'])
+
+    def mk_pkg(order):
+        rs = {}
+        for n in order:
+            fields = [PyDict({'name': 'k', 'type': 'string'})] + ([PyDict({'name': 'v', 'type': 'integer'})] if n == 'src' else [])
+            rs[n] = PyDict({'name': n, 'path': n + '.csv', 'schema': PyDict({'fields': PyList(fields)})})
+        lst = PyList([rs[n] for n in order])
+        return PyDict({'name': 'pkg', 'resources': lst}), rs, lst
+    for source_delete in (True, False):
+        for dedup in (False, True):
+            for order in (('a', 'src', 'b', 'tgt', 'c'), ('src', 'tgt'), ('a', 'src') if dedup else ('a', 'tgt', 'src'), ('a', 'tgt'), ('a', 'src')):
+                def thunk(it, source_delete=source_delete, dedup=dedup, order=order):
+                    func, usage, db = mk_join(it, mode='half-outer', source_delete=source_delete, agg='sum', target_key=not dedup)
+                    pd = func.env.lookup('process_datapackage')
+                    dp, rs, lst0 = mk_pkg(order)
+                    tag = '[delete=%s,dedup=%s,%s]' % (source_delete, dedup, '-'.join(order))
+                    has_src, has_tgt = 'src' in order, 'tgt' in order
+                    bad = (not has_src) or (not has_tgt) or (not dedup and order.index('tgt') < order.index('src'))
+                    if dedup and has_src and not has_tgt:
+                        bad = True          # the target NAME has to be in the package in every mode (asserted up front)
+                    try:
+                        it.call(pd, [dp])
+                    except PyExc as pe:
+                        check(it, 'malformed-package-rejected-with-an-assertion' + tag, bad and pe.exc.cls == 'AssertionError')
+                        check(it, 'rejected-package-left-as-it-was' + tag, dp.d['resources'] is lst0 and lst0.items == [rs[n] for n in order])
+                        cover(it, 'rejection-reachable' + tag)
+                        return
+                    check(it, 'well-formed-package-accepted' + tag, not bad)
+                    out = dp.d['resources'].items
+                    want = []
+                    for n in order:
+                        if n == 'src':
+                            if not source_delete:
+                                want.append(('same', rs[n]))
+                            if dedup:
+                                want.append(('new-target', None))
+                        elif n == 'tgt':
+                            want.append(('same', rs[n]) if not dedup else ('same', rs[n]))
+                        else:
+                            want.append(('same', rs[n]))
+                    ok = len(out) == len(want)
+                    for got, (kind, obj) in zip(out, want):
+                        if kind == 'same':
+                            ok = ok and got is obj
+                        else:
+                            ok = ok and isinstance(got, PyDict) and got is not rs.get('tgt') and got.d.get('name') == 'tgt' and \
+                                got.d.get('path') == 'data/tgt.csv' and list(got.d) == ['name', 'path', 'schema'] and \
+                                [f.d.get('name') for f in got.d['schema'].d['fields'].items] == ['x']
+                    check(it, 'descriptor-list-as-the-mode-prescribes' + tag, ok)
+                    if not dedup:
+                        names = [f.d.get('name') for f in rs['tgt'].d['schema'].d['fields'].items]
+                        check(it, 'target-descriptor-extended-in-place-by-the-aggregated-fields' + tag, names == ['k', 'x'])
+                    for n in order:
+                        if n not in ('src', 'tgt'):
+                            check(it, 'other-resources-untouched' + tag + '[%s]' % n, list(rs[n].d) == ['name', 'path', 'schema'] and
+                                  [f.d.get('name') for f in rs[n].d['schema'].d['fields'].items] == ['k'])
+                    cover(it, 'reachable' + tag)
+                vc.explore(fk, thunk)
+
+
+def sym_join_field_order(vc):
+    """descriptor phase, field handling: the '*' wildcard is expanded against the SOURCE schema and the joined fields are added in
+    source-schema order (then the remaining ones by name), whatever the order of the `fields` argument"""
+    from pyvc.api import check, cover, PyDict, PyList
+    fk = vc.under_contract(P + 'join.py', ['join_aux', 'process_datapackage'])
+    for shape in ('explicit', 'wildcard'):
+        def thunk(it, shape=shape):
+            if shape == 'explicit':
+                fields = PyDict({'zz': PyDict({'name': 'v', 'aggregate': 'max'}), 'v': PyDict({'aggregate': 'sum'}), 'k': PyDict({})})
+                want = ['k', 'v', 'zz']
+            else:
+                fields = PyDict({'*': PyDict({'aggregate': 'last'})})
+                want = ['k', 'v']
+            func, usage, db = mk_join(it, mode='half-outer', agg='sum', target_key=False, fields=fields)
+            pd = func.env.lookup('process_datapackage')
+            src = PyDict({'name': 'src', 'path': 'src.csv', 'schema': PyDict({'fields': PyList([
+                PyDict({'name': 'k', 'type': 'string'}), PyDict({'name': 'v', 'type': 'integer'})])})})
+            tgt = PyDict({'name': 'tgt', 'path': 'tgt.csv', 'schema': PyDict({'fields': PyList([])})})
+            dp = PyDict({'name': 'pkg', 'resources': PyList([src, tgt])})
+            it.call(pd, [dp])
+            new = [r for r in dp.d['resources'].items if r is not src and r is not tgt]
+            check(it, 'joined-fields-in-source-schema-order-then-by-name[%s]' % shape, len(new) == 1 and
+                  [f.d.get('name') for f in new[0].d['schema'].d['fields'].items] == want)
+        vc.explore(fk, thunk)
+
+
+def sym_join_func(vc):
+    """join_aux.func(package): descriptor phase on the package's own descriptor FIRST, then the package, then exactly the streams of
+    new_resource_iterator(package), and only after the last of them both key-value stores are closed"""
+    from pyvc.api import check, cover, UFunc, Opaque, Stream, yields_of
+    from pyvc.symex import Ev
+    fk = vc.under_contract(P + 'join.py', ['join_aux', 'func'])
+
+    def thunk(it):
+        func, usage, db = mk_join(it, mode='half-outer', agg='sum')
+        log = []
+        streams = Stream('new_resources', lambda it_: Opaque('stream', 'joined_stream'))
+
+        def pd(it_, a, k):
+            it_.emit(Ev('Call', target='process_datapackage', method='__call__', args=(), kwargs={}, result=None, objs=tuple(a)))
+            return None
+
+        def nri(it_, a, k):
+            it_.emit(Ev('Call', target='new_resource_iterator', method='__call__', args=(), kwargs={}, result=None, objs=tuple(a)))
+            return streams
+        func.env.vars['process_datapackage'] = UFunc('process_datapackage', pd, False)
+        func.env.vars['new_resource_iterator'] = UFunc('new_resource_iterator', nri, False)
+        package = mk_package2(it)
+        n0 = len(it.path.events)
+        it.run_generator(it.call(func, [package]))
+        evs = it.path.events[n0:]
+        names = [x for x in effect_names(evs) if x not in ('Exhausted',)]
+        check(it, 'descriptor-phase-then-package-then-the-joined-streams-then-both-stores-closed',
+              names == ['process_datapackage', 'Yield', 'new_resource_iterator', 'YieldFrom', 'db1.close', 'db0.close'])
+        c = [e for e in evs if e.kind == 'Call' and e.target == 'process_datapackage']
+        check(it, 'descriptor-phase-gets-the-packages-own-descriptor', len(c) == 1 and c[0].objs[0] is package.attrs['pkg'].attrs['descriptor'])
+        ys = yields_of(evs)
+        check(it, 'first-yield-is-the-package', len(ys) == 1 and ys[0].obj is package.attrs['pkg'])
+        yf = [e for e in evs if e.kind == 'YieldFrom']
+        n = [e for e in evs if e.kind == 'Call' and e.target == 'new_resource_iterator']
+        check(it, 'streams-are-those-of-new_resource_iterator-over-the-package', len(yf) == 1 and yf[0].src is streams and len(n) == 1 and
+              n[0].objs[0] is package)
+    vc.explore(fk, thunk)
+
+
 def sym_new_resource_iterator(vc):
     import z3
     from pyvc.api import LoopSpec, check, cover, yields_of, GenObj, Stream
@@ -779,5 +914,8 @@ ITEMS = [
     Item('indexer', sym_indexer, [], P + 'join.py::join_aux.indexer'),
     Item('process_target', sym_process_target, [], P + 'join.py::join_aux.process_target'),
     Item('new_resource_iterator', sym_new_resource_iterator, [], P + 'join.py::join_aux.new_resource_iterator'),
+    Item('join.field-order', sym_join_field_order, [], P + 'join.py::join_aux.process_datapackage'),
+    Item('join.func', sym_join_func, [], P + 'join.py::join_aux.func'),
+    Item('join.process_datapackage', sym_join_process_datapackage, [], P + 'join.py::join_aux.process_datapackage'),
     Item('recorded-findings', None, [('bounded', KF.nat_findings_c11)], 'dataflows/processors/join.py::KeyCalc.__init__'),
 ]
